@@ -29,6 +29,8 @@ RULE = ('every directed pattern on 1..4 vertices and every symmetric graph on 5 
         'RS (one/two pass), PMIS, PMISc(JP/MIS/LDF), CLJP, CLJPc on the same patterns with and without stored diagonal, '
         'seeds replayed twice -> independence / domination / cover / some-C / binary oracles.  Non-trivial: the pattern '
         'has an off-diagonal entry.')
+RULE += (' '
+         'Also 400 (6000 thorough) random directed patterns on 5-7 vertices; strength matrices handed to the public routines carry antisymmetric (S_ij = -S_ji) or random nonzero values.')
 TRUSTED = ['glibc srand/rand via ctypes', 'SciPy transpose / sparse addition in split._preprocess', 'NumPy global RNG']
 PARTIAL = ['RS first/second pass and CLJP: theorems bounded (<= 3 vertices directed, <= 4 symmetric); PMIS kernel: unbounded',
            'PMIS/PMISc Python preprocessing: oracle only']
